@@ -341,7 +341,7 @@ V("perm-benign-keywords", ["C03"], P, "benign",
   (ET, "                                        permute_quadrature_triangle(\n                                            quadrature_rule.points, ref, rot\n                                        ),", "                                        permute_quadrature_triangle(\n                                            quadrature_rule.points, rotations=rot, reflections=ref\n                                        ),"))
 
 # ---- C09 / C18 ---------------------------------------------------------------------------------------------
-B = ["MATH-TABLES", "BACKEND-SIBLING", "TYPE-ROLES", "KERNEL-SIG", "LIT-DIGITS"]
+B = ["MATH-TABLES", "BACKEND-SIBLING", "TYPE-ROLES", "KERNEL-SIG", "LIT-DIGITS", "DTYPE-MERGE", "MATH-ARGTYPE"]
 V("be-cos-is-sin", ["C09"], B, "fire", (CF, "        \"cos\": \"cosf\",", "        \"cos\": \"sinf\","))
 V("be-float64-uses-float", ["C09"], B, "fire", (CF, "    \"float64\": {\n        \"sqrt\": \"sqrt\",", "    \"float64\": {\n        \"sqrt\": \"sqrtf\","))
 V("be-complex-uses-real", ["C09"], B, "fire", (CF, "        \"exp\": \"cexp\",", "        \"exp\": \"exp\","))
